@@ -445,7 +445,7 @@ fn run_bounds(rec: &mut Rec, rng: &mut Rng, ctx: &B11, scale: u64) -> String {
 		raw_roundtrip(rec, ctx, raw, &format!("expiry = min_final_cltv = {}", v));
 		// through the builder and the accessors (incl. the overflow-prone expiry arithmetic)
 		let b = InvoiceBuilder::new(Currency::Regtest).description("e".into()).payment_hash(PaymentHash([7; 32])).payment_secret(PaymentSecret([8; 32]))
-			.duration_since_epoch(Duration::from_secs(*rng.pick(&[0u64, 1, WIRE_TS_MAX - 1, WIRE_TS_MAX]))).min_final_cltv_expiry_delta(v).expiry_time(Duration::new(v, 999_999_999));
+			.duration_since_epoch(Duration::from_secs(*rng.pick(&[0u64, 1, 1_700_000_000, WIRE_TS_MAX - 1]))).min_final_cltv_expiry_delta(v).expiry_time(Duration::new(v, 999_999_999));
 		match guarded(AssertUnwindSafe(|| b.build_signed(|m| ctx.secp.sign_ecdsa_recoverable(m, &ctx.sk)))) {
 			Err(p) => ofail(rec, format!("InvoiceBuilder panicked for expiry/cltv {}: {}", v, p)),
 			Ok(Err(e)) => ofail(rec, format!("builder rejected expiry/cltv {} ({:?})", v, e)),
